@@ -633,7 +633,19 @@ func verifStopSrc(apiDir string) string {
 // (a goroutine or channel of the code under test that lives longer than one
 // simulated run). Never a witness.
 func unsimulable(txt string) bool {
-	return strings.Contains(txt, "VERIF-UNSUPPORTED") || strings.Contains(txt, "from outside bubble") || strings.Contains(txt, "synctest channel")
+	if strings.Contains(txt, "VERIF-UNSUPPORTED") || strings.Contains(txt, "from outside bubble") || strings.Contains(txt, "synctest channel") {
+		return true
+	}
+	// the simulator's own alarms (a deadlock it cannot attribute, a construct it does not
+	// model, its limits) and the test binary's watchdog are infrastructure trouble
+	for _, m := range []string{"verifrt: deadlock", "verifrt: baton holder", "verifrt: harness defect", "verifrt: the code under test started a goroutine outside",
+		"verifrt: more than 4096", "verifrt: too many", "verifrt: lock held while no other task", "verifrt: receive from nil channel", "verifrt: send on nil channel",
+		"panic: test timed out", "all goroutines are asleep"} {
+		if strings.Contains(txt, m) {
+			return true
+		}
+	}
+	return false
 }
 
 // replayHistory regenerates the whole sequence of plans the worker executed (same
